@@ -464,7 +464,7 @@ def main():
     # (3) alignment sweep
     jobs = []
     flat = []
-    step = 1 if t == "thorough" else 7
+    step = 1 if (t == "thorough" and not rep.out_of_time(0.8)) else 7      # (a thorough tier that is late sweeps with the quick step)
     for idx, (name, e) in enumerate(evs):
         size = len(e.get("buf", "") or e.get("text", "")) + len(e.get("ctx", "")) + 64
         for bname, b in (("2^31", 2 ** 31), ("2^32", 2 ** 32)):
@@ -479,7 +479,7 @@ def main():
     # (4) documents that stay alive between calls
     kevs = kept_events(evs)
     kref = reference(kevs)
-    KL = 3 if t == "quick" else 4
+    KL = 3 if (t == "quick" or rep.out_of_time(0.85)) else 4
     kdone = []
     for seedname, seed in BFS_SEEDS:
         for l in range(1, KL + 1):
